@@ -255,7 +255,32 @@ def strict_prefix_proof():
     ]
 
 
+def nested_ceil(n, a, b):
+    """ceil(ceil(n / a) / b) == ceil(n / (a*b)) for a, b >= 1 (ceil(x / y) written -((-x) // y))"""
+    q1 = S.f_pydiv(-n, a)  # ceil(n / a) == -q1
+    return z3.Implies(z3.And(a >= 1, b >= 1), -S.f_pydiv(q1, b) == -S.f_pydiv(-n, a * b))
+
+
+def nested_ceil_proof():
+    n, a, b = z3.Ints("n!l a!l b!l")
+    q1 = S.f_pydiv(-n, a)
+    hyps = _moddefs(-n, a) + _moddefs(q1, b) + _moddefs(-n, a * b)
+    return [("lemma-step", "nested_ceil", hyps, nested_ceil(n, a, b))]
+
+
+def ceil_within_one(n, d):
+    """1 <= n <= d  =>  ceil(n / d) == 1"""
+    return z3.Implies(z3.And(1 <= n, n <= d), -S.f_pydiv(-n, d) == 1)
+
+
+def ceil_within_one_proof():
+    n, d = z3.Ints("n!l d!l")
+    return [("lemma-step", "ceil_within_one", _moddefs(-n, d), ceil_within_one(n, d))]
+
+
 LEMMAS = {
+    "nested_ceil": (nested_ceil, nested_ceil_proof),
+    "ceil_within_one": (ceil_within_one, ceil_within_one_proof),
     "strict_prefix": (strict_prefix, strict_prefix_proof),
     "sum_mono": (sum_mono, sum_mono_proof),
     "ceil_identity": (ceil_identity, ceil_identity_proof),
